@@ -76,6 +76,9 @@ func c14(args []string) int {
 	out.Put(map[string]interface{}{"kind": "region", "base": fmt.Sprint(base), "pagesize": ps, "npages": npages,
 		"perms_before": pagePerms(base, base+uintptr(region))})
 	diffBad, permBad := 0, 0
+	if c.extra == "placeholders-only" {
+		nWrites = 0
+	}
 	for i := 0; i < nWrites; i++ {
 		var off, n int
 		switch i % 5 {
@@ -151,10 +154,14 @@ func c14(args []string) int {
 		return 0
 	}
 
+	tinyMax := 40
+	if c.extra == "placeholders-only" {
+		tinyMax = 1
+	}
 	// ---- synthetic functions of exact sizes: body of (s-1) bytes, one INT3, then foreign code
 	// body = (xor eax,eax)* [nop-free] ret ; GetFuncSize = len(body)+1 because the INT3 run ends at the foreign code
 	pos := 64
-	for s := 2; s <= 40; s++ {
+	for s := 2; s <= tinyMax; s++ {
 		for _, near := range []int{0, 1, 5, 12, 13} { // distance of the entry from a page end (0 = anywhere)
 			off := pos
 			if near > 0 {
@@ -269,6 +276,9 @@ func c14(args []string) int {
 		}
 		out.Put(rec)
 		patch.UnpatchAll()
+	}
+	if c.extra == "placeholders-only" {
+		return 0
 	}
 	// ---- every function of this binary: scanned extent vs distance to the next function
 	tab, err := unexports2.GetSymbolTable()
